@@ -31,6 +31,7 @@ pub fn spaces(tier: &str) -> Vec<Box<dyn Space>> {
     v.push(fam_space(family_b1(all_seeds(true, if thorough { 100_000 } else { 200 }), if thorough { 5 } else { 3 })));
     v.push(fam_space(family_b_struct()));
     v.push(fam_space(family_e(true)));
+    v.push(fam_space(family_a2(true, if thorough { 24 } else { 8 })));
     v
 }
 
